@@ -61,6 +61,9 @@ HAND = [
     # trackers added while running (insert after start): idle controller re-arms its timer, new tier order
     "T 0 G 1 1 ; en ss fl:0 in:0 nx nx fl:b in:2 nx ok:b:1800:600:0 in:1 nx",
     "T 0 G 0 ; in:3 en in:0 ss ok:b:900:300:0 in:3 nx",
+    # no reply: the worker's own timeout (HTTP 60 s, UDP 15+30+45 s) arrives as a failure much later; slow reply
+    "T 0 G 2 0 1 ; en ss ad:3000000 ad:60000000 fl:0 nx ad:90000000 fl:b nx ad:600000000 ok:b:1800:600:0 nx",
+    "T 0 G 1 0 ; en ss ad:3600000000 ok:0:1800:600:0 nx ad:7200000000 fl:0 nx",
     # unsorted insertion order, sparse tier numbers
     "T 0 G 4 5 0 5 2 ; en ss fl:b fl:b fl:b fl:b nx nx nx nx",
     # tracker disabled while in flight, reply still counted
@@ -117,6 +120,8 @@ def rand_reply(r, k, pfail):
 
 def rand_advance(r):
     x = r.random()
+    if x < 0.04:
+        return "ad:%d" % (r.choice((60, 90, 120)) * 1000000)     # worker-side timeouts (HTTP 60 s, UDP 90 s)
     if x < 0.5:
         return "nx"
     if x < 0.6:
@@ -225,6 +230,11 @@ def boundary_cases(r):
 
 
 UDP_HAND = [
+    # silent tracker: UdpRouter retransmits (15/30/45 s on the tracker thread's clock), the worker reports the
+    # failure, the controller backs off and the retry still carries the pending event
+    "U 11 22 33 ; ss! nx sc mr sp",
+    "U 5 6 7 ; ss ss! nx nx! nx sc! nx SP",
+    "U 1 2 3 ; ss sc! mr nx sp",
     "U 11 22 33 ; ss sc mr sp",
     "U 5 6 7 ; ss ss mr SP ST sc SP",
     "U 1 2 3 ; sp sc mr ss sp",
@@ -240,7 +250,12 @@ def udp_cases(r, n):
         figs = [r.choice((0, 1, 255, 65536, 2 ** 32 - 1, 2 ** 32, 2 ** 40 + 7, r.randrange(2 ** 62))) for _ in range(3)]
         ops = ["ss"] if r.random() < 0.8 else []
         for _ in range(r.randrange(1, 6)):
-            ops.append(r.choice(("ss", "sc", "sp", "mr", "mr", "sc", "ST", "SP")))
+            ops.append(r.choice(("ss", "sc", "sp", "mr", "mr", "sc", "ST", "SP", "nx")))
+        if r.random() < 0.12:
+            i = r.randrange(len(ops))
+            if ops[i] not in ("sp", "SP"):
+                ops[i] += "!"
+                ops.insert(i + 1, "nx")
         out.append("U %d %d %d ; %s" % (figs[0], figs[1], figs[2], " ".join(ops)))
     return out
 
